@@ -979,3 +979,7 @@ def run(ctx):
     # by comparing tids per entry, not by a position computed on an earlier version of the list (same rule instance as C05/branch-select)
     from rules import c05 as _c05b
     _c05b.rule_branch_select(ctx, R="C04/crash-context-for-blamed-tid")
+    # the thread list fails as a whole when a stack or the window around the crash address cannot be read (`?` in thread_list_stream): the reader must
+    # try every strategy before it gives up (rules/families.py, reader family)
+    from rules import families as _famr
+    _famr.reader(ctx, "C04")
